@@ -15,6 +15,8 @@ P3_EXCEPTIONS = {
 
 
 def run(ctx):
+    from ..persist import rule_P16
+    rule_P16(ctx)      # the resume block does not overwrite what the caller configured
     from ..persist import rule_P12k
     rule_P12k(ctx)      # ordered members are never rebuilt from the (alphabetical) group names
     from ..pathrules import rule_T2_publish
